@@ -907,7 +907,11 @@ func genSpec(r *h.Run, role string) *spec {
 	case x < 19:
 		return &spec{K: "new", Kind: randKind(r), M: genMsg(r, false)}
 	default:
-		return &spec{K: "opaque", M: append([]byte("failure "), genMsg(r, false)...)}
+		o := &spec{K: "opaque", M: append([]byte("failure "), genMsg(r, false)...)}
+		if r.Rng.Intn(2) == 0 { // a foreign wrapper around a foreign error (*PathError-like): "open /x: failure ..."
+			return &spec{K: "fwrap", M: []byte("open /x"), Inner: o}
+		}
+		return o
 	}
 }
 
@@ -954,6 +958,14 @@ func main() {
 	run(r, scenario{Kind: "chain", Chain: &chain{Base: sent(nf), Ops: []op{{Op: "New", M: []byte("x")}, {Op: "WrapINC", T: sent(inv), M: []byte("m")}}}}, true)
 	run(r, scenario{Kind: "chain", Chain: &chain{Base: sent(inv), Ops: []op{{Op: "Errorf", M: []byte("a")}, {Op: "Newf", M: []byte("b")}, {Op: "WrapT", T: &spec{K: "opaque", M: []byte("boom")}, M: []byte("c")}}}}, true)
 	run(r, scenario{Kind: "chain", Chain: &chain{Base: &spec{K: "canceled"}, Ops: []op{{Op: "Wrap", T: sent(inv), M: []byte("m")}, {Op: "Wrap", T: sent(nf), M: []byte("outer")}}}}, true)
+
+	// chains whose root is not a kind: the patched serialiser descends only while the "type: reason" convention holds
+	pathErr := &spec{K: "fwrap", M: []byte("open /x"), Inner: &spec{K: "opaque", M: []byte("no such file or directory")}}
+	run(r, scenario{Kind: "chain", Chain: &chain{Base: pathErr, Ops: []op{{Op: "New", M: []byte("msg")}}}}, true)
+	run(r, scenario{Kind: "chain", Chain: &chain{Base: pathErr, Ops: []op{{Op: "Errorf", M: []byte("msg")}, {Op: "Newf", M: []byte("again")}}}}, true)
+	run(r, scenario{Kind: "chain", Chain: &chain{Base: pathErr, Ops: []op{{Op: "WrapT", T: &spec{K: "opaque", M: []byte("cause")}, M: []byte("msg")}}}}, true)
+	run(r, scenario{Kind: "chain", Chain: &chain{Base: &spec{K: "opaque", M: []byte("boom")}, Ops: []op{{Op: "New", M: []byte("a")}, {Op: "New", M: []byte("b")}}}}, true)
+	run(r, scenario{Kind: "join", Chains: []chain{{Base: pathErr, Ops: []op{{Op: "New", M: []byte("msg")}}}, {Base: sent(nf), Ops: []op{{Op: "New", M: []byte("x")}}}}}, true)
 
 	// --- every kind x every corpus message x direct constructors
 	emitEvery := r.N(4, 1)
